@@ -156,6 +156,17 @@ pub fn do_conv<Q: Quantity>(a: &[&str]) -> String {
     }
 }
 
+/// the predefined temperature table:  amount unit to_unit
+pub fn do_tconv(a: &[&str]) -> String {
+    use quantities::temperature::{Temperature, TEMPERATURE_CONVERTER};
+    let q = qty::<Temperature>(a[0], a[1]);
+    let to = unit_at::<Temperature>(a[2]);
+    match TEMPERATURE_CONVERTER.convert(&q, to) {
+        None => "None".to_string(),
+        Some(x) => format!("Some {}", show_q::<Temperature>(x)),
+    }
+}
+
 pub fn show_rate<TQ: Quantity, PQ: Quantity>(r: Rate<TQ, PQ>) -> String {
     format!("{} {} {} {}", amt_show(r.term_amount()), unit_ix::<TQ>(r.term_unit()), amt_show(r.per_unit_multiple()), unit_ix::<PQ>(r.per_unit()))
 }
